@@ -1,11 +1,16 @@
-// Package c06 decides C06 (fixed-width integer arithmetic is exact).
+// Package c06 decides C06 (fixed-width integer, float and complex arithmetic is exact).
 //
-// spec/Bits.tla defines the arithmetic on bit vectors, spec/BitsValidate.tla
-// checks those definitions against integer arithmetic for all 8-bit operand
-// pairs, spec/BitsScen.tla enumerates (operator, type, shape, operands) cases
-// with the predicted result.  The cases are rendered as Go, compiled by the
+// Integer part (this file): spec/Bits.tla defines the arithmetic on bit vectors,
+// spec/BitsValidate.tla checks those definitions against integer arithmetic for all
+// 8-bit operand pairs, spec/BitsScen.tla enumerates (operator, type, shape, operands)
+// cases with the predicted result.  The cases are rendered as Go, compiled by the
 // compiler under test, run under Node, and compared with the prediction; the
 // same program built by the reference toolchain guards the specification.
+// Float / complex part: float.go (spec/FloatArith*.tla).  Witness programs: witness.go.
+//
+// VERIF_C06_ONLY=int|float|witness restricts a run to one part (development and
+// sensitivity runs); VERIF_C06_CORRUPT=float corrupts one float prediction (the
+// binding is not vacuous).
 package c06
 
 import (
@@ -17,6 +22,7 @@ import (
 	"path/filepath"
 	"regexp"
 	"sort"
+	"strconv"
 	"strings"
 	"time"
 
@@ -325,13 +331,70 @@ func classify(r *rec) []string {
 	return keys
 }
 
+const intRule = "integer part: TLC enumerates every (class, type, operator, shape) unit x operand rows of BitsScen.tla (boundary pool + VERIF_SEED operands); a case is one expression with concrete operands; distinct = distinct expression trees; non-trivial = every case (each evaluates at least one fixed-width operator)"
+const floatRule = "float/complex part: TLC enumerates every (class, type, operator) unit x operand rows of FloatArithScen.tla (operand shapes variable / typed constant / both constant / untyped constant / nested / compound assignment; boundary pools per type + VERIF_SEED dyadics) with the IEEE 754 bit pattern FloatArith.tla defines; every expression is rendered with predeclared and with defined types; expressions for which Go defines no unique result are emitted as excluded and counted in not_judged_go_leaves_result_open; distinct = distinct expression trees"
+
+// tlcWorkers limits the TLC worker threads of this check on a shared machine:
+// VERIF_TLC_WORKERS=<n> if set, else half of VERIF_WORKERS when that is set below the
+// default (16), else the number the caller asks for.
+func tlcWorkers(c *core.Ctx, want int) int {
+	n := want
+	if v, err := strconv.Atoi(os.Getenv("VERIF_TLC_WORKERS")); err == nil && v > 0 {
+		n = v
+	} else if c.Workers < 16 {
+		n = c.Workers / 2
+	}
+	if n > want {
+		n = want
+	}
+	if n < 1 {
+		n = 1
+	}
+	return n
+}
+
 // Run is the C06 check.
 func Run(c *core.Ctx, pool *gjs.Pool) {
-	c.Assumef("bit-vector operators of Bits.tla are width-generic; validated against integer arithmetic for all 8-bit operand pairs by BitsValidate.tla in this run")
+	only := os.Getenv("VERIF_C06_ONLY")
+	part := func(p string) bool { return only == "" || only == p }
 	c.Assumef("int/uint/uintptr are compared with int32/uint32 on the reference toolchain (documented 32-bit width)")
-	c.Assumef("float and complex arithmetic are outside this check (TLC has no floating point); see DESIGN.md section 7")
+	var fr *floatRun
+	if part("float") {
+		c.Assumef("unbounded naturals of FloatArithNat.tla are generic in the limb width; validated against integer arithmetic for all operand pairs at limb widths 2 and 3 and on a grid at width 15 by FloatArithValidate.tla in this run; FloatArithScen.tla checks the laws L1-L8 of its header on every enumerated operand tuple")
+		c.Assumef("float -> integer conversions whose truncated value the target type cannot represent (and NaN, infinities), complex multiplication with inexact partial products, complex division by zero or with non-finite operands are not judged: Go leaves the result open; complex division is judged against the algorithm of the reference implementation (runtime.complex128div), which the Go specification does not mandate")
+		c.Assumef("the reference toolchain (amd64) does not fuse x*y+z; for such expressions the fused result is accepted as well, as the Go specification permits")
+		fr = startFloat(c) // TLC for the float part runs while the integer part is decided
+		defer fr.wg.Wait()
+	}
+	if part("int") {
+		runInt(c, pool)
+		c.Set("rule", intRule)
+	}
+	if part("float") && c.InfraErr == nil {
+		runFloatPrograms(c, pool, fr)
+		if part("int") {
+			c.Set("rule", intRule+"; "+floatRule)
+			c.Set("checker_cmd", "tlc BitsValidate (INVARIANT Agree); tlc BitsScen (INVARIANT Emit); tlc FloatArithValidate (INVARIANT Agree); tlc FloatArithScen (INVARIANT Laws, INVARIANT Emit)")
+		} else {
+			c.Set("rule", floatRule)
+			c.Set("checker_cmd", "tlc FloatArithValidate (INVARIANT Agree); tlc FloatArithScen (INVARIANT Laws, INVARIANT Emit)")
+			c.Set("exhaustive", true)
+		}
+	}
+	if only != "" {
+		c.Set("restricted_to_part", only)
+	}
+	if part("witness") && c.InfraErr == nil {
+		witness.Run(c, pool, witnesses)
+		c.Phase("witnesses")
+	}
+}
+
+// runInt is the integer part.
+func runInt(c *core.Ctx, pool *gjs.Pool) {
+	c.Assumef("bit-vector operators of Bits.tla are width-generic; validated against integer arithmetic for all 8-bit operand pairs by BitsValidate.tla in this run")
 	// 1. validate the reference operators
-	r, err := tlcx.Run(c, tlcx.Opts{Module: "BitsValidate", CfgFile: "BitsValidate.cfg", Workers: 16, Timeout: 10 * time.Minute})
+	r, err := tlcx.Run(c, tlcx.Opts{Module: "BitsValidate", CfgFile: "BitsValidate.cfg", Workers: tlcWorkers(c, 16), Timeout: 10 * time.Minute})
 	if !tlcx.MustComplete(c, r, err, "BitsValidate") {
 		return
 	}
@@ -376,7 +439,7 @@ func Run(c *core.Ctx, pool *gjs.Pool) {
 	}
 	pj, _ := json.Marshal(params)
 	cfg := "SPECIFICATION Spec\nINVARIANT Emit\nCHECK_DEADLOCK FALSE\n"
-	r, err = tlcx.Run(c, tlcx.Opts{Module: "BitsScen", Cfg: cfg, Workers: 16, Timeout: 40 * time.Minute, Files: map[string]string{"c06_params.json": string(pj)}, HeapMB: 8192})
+	r, err = tlcx.Run(c, tlcx.Opts{Module: "BitsScen", Cfg: cfg, Workers: tlcWorkers(c, 16), Timeout: 40 * time.Minute, Files: map[string]string{"c06_params.json": string(pj)}, HeapMB: 8192})
 	if !tlcx.MustComplete(c, r, err, "BitsScen") {
 		return
 	}
@@ -442,7 +505,8 @@ func Run(c *core.Ctx, pool *gjs.Pool) {
 	}
 	c.Set("evaluations", total)
 	c.Set("shapes", len(shapes))
-	c.Set("rule", "TLC enumerates every (class, type, operator, shape) unit x operand rows of BitsScen.tla (boundary pool + VERIF_SEED operands); a case is one expression with concrete operands; distinct = distinct expression trees; non-trivial = every case (each evaluates at least one fixed-width operator)")
+	c.Set("integer_evaluations", total)
+	c.Phase("int_tlc")
 	for k := range seen {
 		c.Distinct(k)
 	}
@@ -461,12 +525,20 @@ func Run(c *core.Ctx, pool *gjs.Pool) {
 	if cur.n > 0 {
 		progs = append(progs, cur)
 	}
-	// every program is also run with defined (named) integer types
-	for _, p := range append([]*program{}, progs...) {
+	// every program is also run with defined (named) integer types; the quick tier
+	// (which now also decides the float part) takes every other program for this
+	// variant, the choice alternating with VERIF_SEED; the thorough tier takes all
+	nNamed := 0
+	for i, p := range append([]*program{}, progs...) {
+		if !c.Thorough() && int64(i)%2 != ((c.Seed%2)+2)%2 {
+			continue
+		}
 		progs = append(progs, &program{shapes: p.shapes, n: p.n, named: true})
+		nNamed++
 	}
 	c.Set("programs", len(progs))
-	c.Set("programs_with_named_types", len(progs)/2)
+	c.Set("programs_with_named_types", nNamed)
+	c.Set("integer_programs_with_named_types", fmt.Sprintf("%d of %d", nNamed, len(progs)-nNamed))
 	type group struct {
 		named bool
 		keys  []string
@@ -541,7 +613,11 @@ func Run(c *core.Ctx, pool *gjs.Pool) {
 		nd += d
 	}
 	c.Set("spec_guard_discards", nd)
-	c.Set("traces_validated_against_impl", 2*total-nd)
+	nrun := 0
+	for _, p := range progs {
+		nrun += p.n
+	}
+	c.Set("traces_validated_against_impl", nrun-nd)
 	if nd > 0 {
 		fmt.Printf("note: %d cases discarded because the reference toolchain disagrees with the specification\n", nd)
 	}
@@ -579,7 +655,5 @@ func Run(c *core.Ctx, pool *gjs.Pool) {
 		}
 		i++
 	}
-	_ = os.Remove
-	witness.Run(c, pool, witnesses)
-	c.Phase("witnesses")
+	c.Phase("int_programs")
 }
